@@ -521,7 +521,8 @@ Definition skip_core (rec : skip_t) (src : str) (inside_bundle : bool) : R (str 
         if at_ src 1 =? 92 then
           if (at_ src 2 =? 39) && ((at_ src 3 =? 0) || isspace (at_ src 3))
           then Ok (skipn 3 src, 1, 99)                        (* the mistyped backslash *)
-          else if (get_escaped_char (at_ src 2) true =? 0) || negb (at_ src 3 =? 39)
+          else if (negb (at_ src 2 =? 48) && (get_escaped_char (at_ src 2) true =? 0))
+                  || negb (at_ src 3 =? 39)
                then Null else Ok (skipn 4 src, 1, 99)
         else if at_ src 2 =? 39 then Ok (skipn 3 src, 1, 99) else Null)
     | FC_dq => ret (
